@@ -273,3 +273,77 @@ grid_point!(t_p3_s193, 3, 193, 68, false);
 grid_point!(t_p4096_w1, 4096, 64 * 4096, 67, false);
 grid_point!(t_p4096_w1p, 4096, 64 * 4096 + 1, 68, false);
 grid_point!(t_p16_s33, 16, 16 * 33, 36, false);
+
+/// the other tracked bitmap flavours: `ArcSlice` (BaseSlice over an Arc), `Option<B>`, `()`
+/// (`AtomicBitmapArc` is not exported by the crate and therefore not reachable for a client)
+pub fn flavours<const P: usize, const S: usize>() {
+    use std::sync::Arc;
+    use vm_memory::bitmap::NewBitmap;
+    let n = pages(S, P);
+    let arc = Arc::new(mk::<P, S>());
+    let pre = Pre::any();
+    pre.apply(&arc);
+    let (o1, o2, off, ln): (usize, usize, usize, usize) = (kani::any(), kani::any(), kani::any(), kani::any());
+    kani::assume(ln <= 2 * P);
+    let which: u8 = kani::any();
+    kani::assume(which < 4);
+    let st = o1.wrapping_add(o2).wrapping_add(off);
+    match which {
+        0 => {
+            // ArcSlice of ArcSlice: offsets add up (wrapping)
+            let s: ArcSlice<AtomicBitmap> = ArcSlice::new(arc.clone(), o1).slice_at(o2);
+            let a: usize = kani::any();
+            assert!(s.dirty_at(a) == pre.has(P, n, o1.wrapping_add(o2).wrapping_add(a) / P));
+            s.mark_dirty(off, ln);
+            readout::<P>(&arc, &|q| q < n && (pre.has(P, n, q) || overlaps(st, ln, P, q)));
+            core::mem::forget(s);
+        }
+        1 => {
+            // a cloned slice views the SAME set: a mark through the clone is seen through the original
+            let s1: ArcSlice<AtomicBitmap> = ArcSlice::new(arc.clone(), o1);
+            let s2 = s1.clone();
+            s2.mark_dirty(o2.wrapping_add(off), ln);
+            let a: usize = kani::any();
+            let q = o1.wrapping_add(a) / P;
+            assert!(s1.dirty_at(a) == (q < n && (pre.has(P, n, q) || overlaps(st, ln, P, q))));
+            core::mem::forget(s1);
+            core::mem::forget(s2);
+        }
+        2 => {
+            // Option<B>: Some delegates (also through slices), None tracks nothing
+            let some: Option<AtomicBitmap> = Some(mk::<P, S>());
+            some.slice_at(o1).mark_dirty(off, ln);
+            let st1 = o1.wrapping_add(off);
+            let a: usize = kani::any();
+            assert!(some.dirty_at(a) == (a / P < n && overlaps(st1, ln, P, a / P)));
+            let none: Option<AtomicBitmap> = None;
+            none.mark_dirty(off, ln);
+            assert!(none.slice_at(o1).is_none() && !none.dirty_at(a));
+            core::mem::forget(some);
+        }
+        _ => {
+            // (): nothing is ever dirty
+            let u = ();
+            u.mark_dirty(off, ln);
+            u.slice_at(o1).mark_dirty(off, ln);
+            assert!(!u.dirty_at(kani::any()));
+            let _ = <() as NewBitmap>::with_len(S);
+        }
+    }
+    kani::cover!(which == 0 && ln > 0 && st / P < n && o1 > 0 && o2 > 0);
+    kani::cover!(which == 1 && ln > 0 && st / P < n);
+    kani::cover!(which == 2 && ln > 0);
+    kani::cover!(which == 3);
+    core::mem::forget(arc);
+}
+
+#[kani::proof]
+#[kani::unwind(6)]
+fn q_flavours_p3_s4() {
+    flavours::<3, 4>()
+}
+#[kani::proof]
+#[kani::unwind(6)]
+fn q_flavours_p4096_w1p() {
+    flavours::<4096, { 64 * 4096 + 1 }>()
+}
